@@ -81,3 +81,21 @@ def resolve_parent(parts, data):
     except (JSONPointerIndexError, JSONPointerKeyError):
         # documented: the parent exists but the last token names nothing in it
         return (parent, UNDEFINED)
+
+
+# ---- pointer algebra on reference tokens (C14): tokens(p) = [str(x) for x in p.parts]
+
+def tokens(parts):
+    return [str(p) for p in parts]
+
+
+def is_relative_to(self_parts, other_parts):
+    """`self` lies strictly below `other`: other's tokens are a proper prefix of self's tokens."""
+    return len(other_parts) < len(self_parts) and self_parts[: len(other_parts)] == other_parts
+
+
+def parent_parts(parts):
+    """The pointer one token shorter; the root is its own parent."""
+    if len(parts) == 0:
+        return parts
+    return parts[:-1]
